@@ -33,22 +33,25 @@ impl Engine for E {
         if prop == "C14" {
             p.cases = if quick { 1200 } else { 40_000 };
             p.timeout_s = if quick { 600 } else { 3 * 3600 };
+            // soft budget: on a loaded machine the thorough wave stops starting new cases after 40 min and
+            // the floors decide whether enough was exercised (idle 16 cores: all cases in about 12 min)
+            p.budget_s = if quick { 0 } else { 2400 };
             p.crash_is_violation = true;
             p.hang_is_violation = true;
             p.rule = "case = generated script of 1..40 v0/v1 host calls (random with hostile pointers/lengths/offsets/handles/tags, boundary scripts on and over each protocol limit, interrupt scripts, crypto scripts) compiled to a straight-line module, for one of P4..P7 and one cost schedule, plus a slice of the import/export allow-list probe table; evaluations = engine executions judged (ample budget twice, budget sweep, short-of-first-charge budgets) plus allow-list probes; distinct_nontrivial = distinct (module, environment) pairs whose reference run made >= 3 host calls and at least one host charge".into();
             let mut floors: Vec<(String, u64)> = vec![];
             let v0 = ["accept", "simple_transfer", "send", "combine_and", "combine_or", "get_parameter_size", "get_parameter_section", "get_policy_section", "log_event", "load_state", "write_state", "resize_state", "state_size", "get_init_origin", "get_receive_invoker", "get_receive_self_address", "get_receive_self_balance", "get_receive_sender", "get_receive_owner", "get_slot_time"];
             for f in v0 {
-                floors.push((format!("host.v0.{}.calls", f), if quick { 15 } else { 375 }));
+                floors.push((format!("host.v0.{}.calls", f), if quick { 15 } else { 120 }));
             }
             for s in script::V1_SIGS {
-                floors.push((format!("host.v1.{}.calls", s.name), if quick { 15 } else { 375 }));
+                floors.push((format!("host.v1.{}.calls", s.name), if quick { 15 } else { 120 }));
             }
             for t in gen::LIMIT_TAGS {
-                floors.push((t.to_string(), if quick { 20 } else { 500 }));
+                floors.push((t.to_string(), if quick { 20 } else { 160 }));
             }
-            // thorough runs 33x the quick cases; floors are scaled by 25
-            let f = |k: &str, q: u64, _t: u64| (k.to_string(), if quick { q } else { 25 * q });
+            // thorough runs up to 33x the quick cases (fewer when the soft time budget cuts in); floors are 8x
+            let f = |k: &str, q: u64, _t: u64| (k.to_string(), if quick { q } else { 8 * q });
             floors.extend([
                 f("hostile.oob_pointer", 500, 20_000),
                 f("hostile.huge_len", 100, 4_000),
